@@ -8,6 +8,7 @@ import (
 	"crypto/hmac"
 	"crypto/sha256"
 	"fmt"
+	"reflect"
 	"strings"
 
 	"github.com/superfly/macaroon"
@@ -119,6 +120,8 @@ func verifyClass(err error) string {
 		return "boundElsewhere"
 	case strings.HasPrefix(s, "attestation in non-proof macaroon"):
 		return "attestationInNonProof"
+	case strings.HasPrefix(s, "attestation inside wrapper caveat"):
+		return "wrappedAttestation"
 	case strings.HasPrefix(s, "macaroon verify: invalid"):
 		return "invalid"
 	case strings.Contains(s, "cannot convert unregistered caveats"):
@@ -156,6 +159,8 @@ func addClass(err error) string {
 		return "finalizedProof"
 	case strings.Contains(s, "cannot add attestations to non-proof"):
 		return "attestationOnNonProof"
+	case strings.Contains(s, "cannot add attestations inside wrapper"):
+		return "wrappedAttestation"
 	case strings.Contains(s, "attempting to add multiple 3ps"):
 		return "duplicate3P"
 	case strings.Contains(s, "deduplicating caveats"), strings.Contains(s, "encode caveat"):
@@ -232,4 +237,61 @@ func doAdd(o *Out, m *macaroon.Macaroon, items []addItem) error {
 	}
 	o.emit(fmt.Sprintf("(tok.add %s (%s))", hx(before), strings.Join(parts, " ")), res)
 	return err
+}
+
+// unmodelledNil: the decoded token holds a nil map or nil []byte where the wire said nil (or left a
+// field out).  The library re-encodes those as nil (0xc0), the model reads them as empty and
+// re-encodes an empty map / empty bin, so the MACs differ: such inputs are outside the modelled
+// domain (DESIGN.md, C11 note) and are skipped and counted, never compared.
+func unmodelledNil(m *macaroon.Macaroon) bool {
+	if m.Nonce.KID == nil || m.Nonce.Rnd == nil || m.Tail == nil {
+		return true
+	}
+	return cavsHaveNil(m.UnsafeCaveats.Caveats)
+}
+
+func cavsHaveNil(cs []macaroon.Caveat) bool {
+	for _, c := range cs {
+		if c == nil {
+			return true
+		}
+		switch v := c.(type) {
+		case *macaroon.Caveat3P:
+			if v.VerifierKey == nil || v.Ticket == nil {
+				return true
+			}
+		case *macaroon.BindToParentToken:
+			if *v == nil {
+				return true
+			}
+		case macaroon.WrapperCaveat:
+			if u := v.Unwrap(); u != nil && cavsHaveNil(u.Caveats) {
+				return true
+			}
+		default:
+			rv := reflect.ValueOf(c)
+			if rv.Kind() == reflect.Pointer && rv.Elem().Kind() == reflect.Struct {
+				for i := 0; i < rv.Elem().NumField(); i++ {
+					f := rv.Elem().Field(i)
+					if f.Kind() == reflect.Map && f.IsNil() {
+						return true
+					}
+				}
+			}
+		}
+	}
+	return false
+}
+
+// comparable: every token involved is inside the modelled domain
+func comparable(tok []byte, ds [][]byte) bool {
+	if m, err := macaroon.Decode(tok); err == nil && unmodelledNil(m) {
+		return false
+	}
+	for _, d := range ds {
+		if m, err := macaroon.Decode(d); err == nil && unmodelledNil(m) {
+			return false
+		}
+	}
+	return true
 }
